@@ -174,6 +174,8 @@ pub struct Census {
 pub struct History {
     pub conns: Vec<ConnRec>,
     pub connects: Vec<ConnectRec>,
+    /// connection attempts that had not finished when the run ended (t_end = u64::MAX)
+    pub pending_connects: Vec<ConnectRec>,
     pub resolves: Vec<(u64, String, u16, usize)>,
     pub threads: Vec<ThreadRec>,
     pub deadlock: bool,
@@ -381,6 +383,11 @@ impl State {
 
     /// record one kernel event in the log hash (and the textual trace when enabled)
     pub(crate) fn log(&mut self, tid: usize, op: &str, a: u64, b: u64) {
+        if self.teardown {
+            // the recorded execution ends where the teardown begins: what the unwinding threads do
+            // (drops of sockets and channel ends) happens in real-thread order and is not part of it
+            return;
+        }
         self.history.events += 1;
         let mut h = self.history.hash;
         if h == 0 {
@@ -1050,10 +1057,13 @@ pub(crate) fn connect(addr: &SocketAddr, timeout_ns: u64) -> std::io::Result<(K,
         _ => {}
     }
     let dl = t_start.saturating_add(wait);
+    // an attempt that is still waiting when the run ends stays in `pending_connects`
+    g.history.pending_connects.push(ConnectRec { addr: *addr, tid: me, seq, t_start, t_end: u64::MAX, timeout_ns, outcome: Err(E::TimedOut) });
     while g.now < dl {
         let (g2, _) = block(&k, g, me, WaitOn::Timer, Some(dl));
         g = g2;
     }
+    g.history.pending_connects.retain(|c| c.seq != seq);
     let t_end = g.now;
     match outcome {
         Err(kind) => {
